@@ -335,7 +335,8 @@ def add_same_names(rng, form):
             else:
                 it["e"] = MUL(F(n, sid), e)
             notes.append("field-named-like-argument")
-    # a constant that carries the name of a free field
+    # a constant that carries the name of a (scalar) free field
+    plain_fields = [n for n in plain_fields if not ISVEC[n]]
     if plain_fields and rng.random() < 0.1:
         f = rng.choice(plain_fields)
         it = rng.choice(form["integrals"])
@@ -723,6 +724,64 @@ def planted_cases():
     bil["calls"] = [{"id": 0, "kind": "kw_exchange", "pos": [{"val": u}, {"val": v}], "kw": [["c", C("k")], ["k", C("c")]], "lower": True},
                     {"id": 1, "kind": "arity_zip", "pos": [{"seq": [], "as": "tuple"}, {"val": F("w")}], "kw": []}]
     cases.append(bil)
+    # ---- same names, other spaces (Props/C10.v twin_call_form, twin_field_form, twin_arg_form)
+    u2, v2, E2, G2 = F("u", "V2"), F("v", "V2"), F("E", "W2"), F("G", "W2")
+    tw = dict(base, label="same-name:a(u_V2,v_V2)",
+              integrals=[{"region": {"t": "dom"}, "e": ADD(MUL(f, gg), MUL(X(0), u, v))}], seed=5101)
+    tw["calls"] = [{"id": 0, "kind": "own", "pos": [{"val": u}, {"val": v}], "kw": [], "lower": True},
+                   {"id": 1, "kind": "twin", "pos": [{"val": u2}, {"val": v2}], "kw": [], "lower": True,
+                    "direct": {"pos": [["u", u2], ["v", v2]]}},
+                   {"id": 2, "kind": "twin_partial", "pos": [{"val": u}, {"val": v2}], "kw": [], "lower": True,
+                    "direct": {"pos": [["u", u], ["v", v2]]}},
+                   {"id": 3, "kind": "twin_exchange", "pos": [{"val": v2}, {"val": u2}], "kw": [], "lower": True,
+                    "direct": {"pos": [["u", v2], ["v", u2]]}},
+                   {"id": 4, "kind": "twin_kind", "pos": [{"val": F("u", "Vl")}, {"val": F("v", "Vl")}], "kw": [], "kind_twin": True,
+                    "direct": {"pos": [["u", F("u", "Vl")], ["v", F("v", "Vl")]]}},
+                   {"id": 5, "kind": "kw_twin", "pos": [{"val": u}, {"val": v}], "kw": [["f", F("f", "V2")]], "lower": True,
+                    "direct": {"pos": [["u", u], ["v", v]], "kw": [["f", F("f", "V2")]]}},
+                   {"id": 6, "kind": "twin_mention", "pos": [{"val": ADD(u2, MUL(N(2), u))}, {"val": v2}], "kw": [], "lower": True}]
+    cases.append(tw)
+    tl = dict(base, kind="linear", trials=[], tests=["v"], label="same-name:l(v_V2)",
+              integrals=[{"region": {"t": "dom"}, "e": ADD(MUL(f, v), MUL(X(1), v))}], seed=5102)
+    tl["calls"] = [{"id": 0, "kind": "twin", "pos": [{"val": v2}], "kw": [], "lower": True, "direct": {"pos": [["v", v2]]}},
+                   {"id": 1, "kind": "kw_twin", "pos": [{"val": v2}], "kw": [["f", F("f", "V2")]], "lower": True,
+                    "direct": {"pos": [["v", v2]], "kw": [["f", F("f", "V2")]]}}]
+    cases.append(tl)
+    tp = dict(base, shape="prod_sv", trials=["E", "u"], tests=["G", "v"], label="same-name:product", product_decl=True,
+              integrals=[{"region": {"t": "dom"}, "e": ADD(OP("inner", OP("grad", E), OP("grad", G)), MUL(OP("div", E), v),
+                                                            MUL(u, OP("div", G)))}], seed=5103)
+    tp["calls"] = [{"id": 0, "kind": "twin", "pos": [{"seq": [E2, u2], "as": "product"}, {"seq": [G2, v2], "as": "product"}],
+                    "kw": [], "lower": True, "direct": {"pos": [["E", E2], ["u", u2], ["G", G2], ["v", v2]]}},
+                   {"id": 1, "kind": "twin_partial", "pos": [{"seq": [E2, u], "as": "tuple"}, {"seq": [G, v2], "as": "list"}],
+                    "kw": [], "lower": True, "direct": {"pos": [["E", E2], ["u", u], ["G", G], ["v", v2]]}},
+                   {"id": 2, "kind": "twin_cross", "pos": [{"seq": [F("E", "V"), u], "as": "tuple"}, {"seq": [G, v], "as": "tuple"}],
+                    "kw": [], "direct": {"pos": [["E", F("E", "V")], ["u", u], ["G", G], ["v", v]]}}]
+    cases.append(tp)
+    fV2 = F("f", "V2")
+    tf = dict(base, label="same-name:two-fields-f", same_names=["twin-field"],
+              integrals=[{"region": {"t": "dom"}, "e": ADD(MUL(f, u, d1(v)), MUL(fV2, d1(u), v))}], seed=5104)
+    tf["calls"] = [{"id": 0, "kind": "own", "pos": [{"val": u}, {"val": v}], "kw": [], "lower": True},
+                   {"id": 1, "kind": "exchange", "pos": [{"val": v}, {"val": u}], "kw": [], "lower": True,
+                    "direct": [["u", "v"], ["v", "u"]]},
+                   {"id": 2, "kind": "kw", "pos": [{"val": u}, {"val": v}], "kw": [["f", g]], "lower": True,
+                    "direct": {"pos": [["u", u], ["v", v]], "kw": [["f", g]]}},
+                   {"id": 3, "kind": "update_free", "pos": [{"val": u}, {"val": v}], "kw": [["f", g]], "lower": True, "via": "update_free"}]
+    cases.append(tf)
+    ta = dict(base, label="same-name:field-named-like-argument", same_names=["field-named-like-argument"],
+              integrals=[{"region": {"t": "dom"}, "e": MUL(u2, u, v)}], seed=5105)
+    ta["calls"] = [{"id": 0, "kind": "own", "pos": [{"val": u}, {"val": v}], "kw": [], "lower": True},
+                   {"id": 1, "kind": "fresh", "pos": [{"val": F("w")}, {"val": F("z")}], "kw": [], "lower": True,
+                    "direct": [["u", "w"], ["v", "z"]]},
+                   {"id": 2, "kind": "kw", "pos": [{"val": F("w")}, {"val": F("z")}], "kw": [["u", g]], "lower": True,
+                    "direct": {"pos": [["u", F("w")], ["v", F("z")]], "kw": [["u", g]]}},
+                   {"id": 3, "kind": "twin", "pos": [{"val": u2}, {"val": v2}], "kw": [], "lower": True,
+                    "direct": {"pos": [["u", u2], ["v", v2]]}}]
+    cases.append(ta)
+    tc = dict(base, label="same-name:constant-named-like-field", same_names=["constant-named-like-field"],
+              integrals=[{"region": {"t": "dom"}, "e": ADD(MUL(f, u, v), MUL(C("f"), d1(u), d1(v)))}], seed=5106)
+    tc["calls"] = [{"id": 0, "kind": "kw", "pos": [{"val": u}, {"val": v}], "kw": [["f", g]], "lower": True,
+                    "direct": {"pos": [["u", u], ["v", v]], "kw": [["f", g]]}}]
+    cases.append(tc)
     return cases
 
 
@@ -730,7 +789,7 @@ def planted_cases():
 def coq_leaf(t):
     l = t["l"]
     if l == "fun":
-        return "(LFun %s %s)" % ("true" if t["v"] else "false", coq_str(t["n"]))
+        return "(LFun %s %s %s)" % ("true" if t["v"] else "false", coq_str(t["n"]), coq_str(t.get("s", "")))
     if l == "const":
         return "(LConst %s)" % coq_str(t["n"])
     if l == "coord":
@@ -758,9 +817,9 @@ def coq_body(b):
 
 
 def coq_form(case, f):
-    return "(mkForm %s %s %s %s)" % ("Bilinear" if case["kind"] == "bilinear" else "Linear",
-                                     coq_list([coq_leaf(x) for x in f["trials"]]), coq_list([coq_leaf(x) for x in f["tests"]]),
-                                     coq_body(f["body"]))
+    return "(mkForm %s %s %s %s %s)" % ("Bilinear" if case["kind"] == "bilinear" else "Linear",
+                                        coq_list([coq_leaf(x) for x in f["trials"]]), coq_list([coq_leaf(x) for x in f["tests"]]),
+                                        coq_body(f["body"]), coq_list([coq_leaf(x) for x in f["atoms"]]))
 
 
 def coq_parg(p):
@@ -797,7 +856,26 @@ Definition chk2 (l : list (list (string * list texpr) * list (string * texpr))) 
   | None => 2
   end.
 Definition chk_eq (o r : sx) : nat := if tequiv (sx2t o) (sx2t r) then 0 else 1.
+(* BasicForm._update_free_variables called directly: 0 = agrees with [update_free_variables] *)
+Definition chk_upd (a : form) (kw : list (string * expr)) (r : result) : nat :=
+  if result_eqb (update_free_variables a kw) r then 0 else 1.
+Definition chk_upd_err (a : form) (kw : list (string * expr)) : nat :=
+  match update_free_variables a kw with Ok _ => 0 | Err ErrArity => 1 | Err ErrUnknownKw => 2 | Err ErrCount => 3 end.
+(* diagnostics: bit 0 = the result is what names-as-identities would return ([call_ids], the proposed repair),
+   bit 1 = the result is what dropping the pairs with old == new returns ([call_skip_equal]) *)
+(* bit 2 / bit 3 = the function and constant symbols of the result are those of [call] / of [call_ids] (used when sympy
+   re-evaluated the rebuilt tree, so that the trees themselves are not comparable) *)
+Definition sym_leaves (r : result) : list leaf :=
+  match r with Ok b => filter (fun l => is_fun l || is_const l) (body_leaves b) | Err _ => [] end.
+Definition same_syms (r s : result) : bool :=
+  forallb (fun l => lmem l (sym_leaves s)) (sym_leaves r) && forallb (fun l => lmem l (sym_leaves r)) (sym_leaves s).
+Definition chk_diag (a : form) (pos : list parg) (kw : list (string * expr)) (r : result) : nat :=
+  (if result_eqb (call_ids a pos kw) r then 1 else 0) + (if result_eqb (call_skip_equal a pos kw) r then 2 else 0) +
+  (if same_syms (call a pos kw) r then 4 else 0) + (if same_syms (call_ids a pos kw) r then 8 else 0).
+Definition chk_err_ids (a : form) (pos : list parg) (kw : list (string * expr)) : nat :=
+  match call_ids a pos kw with Ok _ => 0 | Err ErrArity => 1 | Err ErrUnknownKw => 2 | Err ErrCount => 3 end.
 Definition bool_nat (b : bool) : nat := if b then 1 else 0.
+Definition flag_ids (a : form) : nat := bool_nat (is_symmetric_ids a).
 """
 
 
@@ -860,17 +938,30 @@ def flat_values(case, out):
 
 def tsub_data(case, res, out):
     """(simultaneous, sequential) terminal-level substitutions as Gallina stage lists; None when a value is not expressible.
-    simultaneous = one stage with every keyword and argument; sequential = one stage per keyword, then the arguments."""
+    simultaneous = one stage with every keyword and argument; sequential = one stage per keyword, then the arguments.
+    The lowered integrands name a function by its NAME only: the comparison is not available when one name denotes two
+    symbols of the form (it is a second comparison; the structural one and the oracles see the spaces)."""
     vals = flat_values(case, out)
     if vals is None:
         return None
     dim = case["dim"]
+    lvals = flat_leaf_values(case, res, out)
+    treat = {jleaf(d): jleaf(t) for d, t in lvals}
+    for n, t in out["kw"]:
+        for k in free_keys(res, n):
+            treat[k] = jleaf(t)
+    symbols = decl_leaves(res) + res["free"]["field_leaves"] + [{"l": "const", "n": n} for n in res["free"]["consts"]]
+    byname = {}
+    for t in symbols:
+        byname.setdefault(t["n"], set()).add((treat.get(jleaf(t), "keep"), t.get("v", False) if jleaf(t) in treat else None))
+    if any(len(v) > 1 for v in byname.values()):
+        return None          # one name, two symbols that the call treats differently
+    vec_of = {t["n"]: t["v"] for t in decl_leaves(res) + res["free"]["field_leaves"]}
 
-    def entry(n, t):
-        if n in res["free"]["consts"]:
-            x = texpr_of_value(t, 0)
-            return None if x is None else ("c", "(%s, %s)" % (coq_str(n), x))
-        if ISVEC.get(n, False):
+    def fentry(n, t):
+        if n not in vec_of:
+            return None
+        if vec_of[n]:
             comps = ["(TZ 0%Z)"] + [texpr_of_value(t, i + 1) for i in range(dim)]
         else:
             if value_is_vector(t):
@@ -880,8 +971,18 @@ def tsub_data(case, res, out):
             return None
         return ("f", "(%s, %s)" % (coq_str(n), coq_list(comps)))
 
-    kws = [entry(n, t) for n, t in out["kw"]]
-    pos = [entry(n, t) for n, t in vals]
+    def kentries(n, t):
+        """a keyword binds the constant and / or the free field(s) that carry its name"""
+        es = []
+        if n in res["free"]["consts"]:
+            x = texpr_of_value(t, 0)
+            es.append(None if x is None else ("c", "(%s, %s)" % (coq_str(n), x)))
+        if any(fl["n"] == n for fl in res["free"]["field_leaves"]):
+            es.append(fentry(n, t))
+        return es or [None]
+
+    kws = [e for n, t in out["kw"] for e in kentries(n, t)]
+    pos = [fentry(n, t) for n, t in vals]
     if any(e is None for e in kws + pos):
         return None
     stage = lambda es: "(%s, %s)" % (coq_list([x for k, x in es if k == "f"]), coq_list([x for k, x in es if k == "c"]))
@@ -931,27 +1032,49 @@ def body_canon(b):
     return sorted(([r, ct_canon(t)] for r, t in b), key=lambda x: json.dumps(x, sort_keys=True))
 
 
-def leaf_key(name, vec):
-    return json.dumps({"l": "fun", "n": name, "v": vec}, sort_keys=True)
+def jleaf(t):
+    return json.dumps(t, sort_keys=True)
 
 
-def is_renaming(case, out):
-    """every value is a bare function and the map variable -> value is injective, no keywords"""
+def decl_leaves(res):
+    """the declared arguments as serialised leaves (class, name, space), trials first"""
+    return res["form"]["trials"] + res["form"]["tests"]
+
+
+def flat_leaf_values(case, res, out):
+    """[(declared leaf, c-tree of its value)] when the call supplies exactly one value per declared argument"""
     vals = flat_values(case, out)
+    if vals is None:
+        return None
+    return list(zip(decl_leaves(res), [t for _, t in vals]))
+
+
+def free_keys(res, n):
+    """the serialised leaves of the free symbols of the form that carry the name n"""
+    ks = {jleaf(t) for t in res["free"]["field_leaves"] if t["n"] == n}
+    if n in res["free"]["consts"]:
+        ks.add(jleaf({"l": "const", "n": n}))
+    return ks
+
+
+def is_renaming(case, res, out):
+    """every value is a bare function, the map declared argument -> value is injective (as identities), no keywords"""
+    vals = flat_leaf_values(case, res, out)
     if vals is None or out["kw"]:
         return False
-    names = []
-    for n, t in vals:
+    seen = []
+    for d, t in vals:
         if t.get("l") != "fun":
             return False
-        names.append(t["n"])
-    return len(set(names)) == len(names)
+        seen.append(jleaf(t))
+    # a value that already sits in the form as something else than a replaced argument may merge with it (u*u -> u**2)
+    others = {x for _, t in res["form"]["body"] for x in ct_leaves(t)} - {jleaf(d) for d, _ in vals}
+    return len(set(seen)) == len(seen) and not (set(seen) & others)
 
 
 def leaves_oracle(case, res, out):
     """(iii) nothing foreign appears; for injective renamings the non-argument leaves and the regions are unchanged"""
     body0, body1 = res["form"]["body"], out["body"]
-    own = {leaf_key(n, ISVEC[n]) for n in case["trials"] + case["tests"]}
     l0 = [x for r, t in body0 for x in ct_leaves(t)]
     l1 = [x for r, t in body1 for x in ct_leaves(t)]
     allowed = set(l0)
@@ -965,25 +1088,21 @@ def leaves_oracle(case, res, out):
         return "a leaf that is neither in the form nor in the supplied values appears: %s" % foreign[:3]
     if not set(r for r, _ in body1) <= set(r for r, _ in body0):
         return "an integration region that is not in the form appears"
-    if is_renaming(case, out):
-        keep0 = sorted(x for x in l0 if x not in own)
-        vals = dict(flat_values(case, out))
-        keys = {leaf_key(n, ISVEC[n]): json.dumps(vals[n], sort_keys=True) for n in vals}
+    if is_renaming(case, res, out):
+        keys = {jleaf(d): jleaf(t) for d, t in flat_leaf_values(case, res, out)}
         exp = sorted(keys.get(x, x) for x in l0)
         if sorted(l1) != exp:
             return "after a renaming call the multiset of leaves is not the renamed multiset of the form's leaves"
         if sorted(r for r, _ in body1) != sorted(r for r, _ in body0):
             return "after a renaming call the integration regions differ"
-        del keep0
     return None
 
 
 def arg_value_mentions_kw_key(res, out):
     """a positional value mentions a free symbol that a keyword of the same call replaces"""
-    free = res["free"]
     keys = set()
     for n, _ in out["kw"]:
-        keys.add(json.dumps({"l": "const", "n": n}, sort_keys=True) if n in free["consts"] else leaf_key(n, ISVEC.get(n, False)))
+        keys |= free_keys(res, n)
     for p in out["pos"]:
         for t in (p["seq"] if "seq" in p else [p["val"]]):
             if set(ct_leaves(t)) & keys:
@@ -994,29 +1113,37 @@ def arg_value_mentions_kw_key(res, out):
 def hazard_of(case, res, out):
     """which later substitution re-visits a keyword value: 'keywords' | 'arguments' | None"""
     kw = out["kw"]
-    free = res["free"]
-    keyleaf = lambda n: json.dumps({"l": "const", "n": n}, sort_keys=True) if n in free["consts"] else leaf_key(n, ISVEC.get(n, False))
     for i, (n, t) in enumerate(kw):
         lv = set(ct_leaves(t))
         for m, _ in kw[i + 1:]:
-            if keyleaf(m) in lv:
+            if free_keys(res, m) & lv:
                 return "keywords"
-    vals = flat_values(case, out)
+    vals = flat_leaf_values(case, res, out)
     if vals is not None:
-        changed = {leaf_key(n, ISVEC[n]) for n, t in vals if json.dumps(t, sort_keys=True) != leaf_key(n, ISVEC[n])}
+        changed = {jleaf(d) for d, t in vals if jleaf(t) != jleaf(d)}
         for n, t in kw:
             if set(ct_leaves(t)) & changed:
                 return "arguments"
     return None
 
 
+def same_named_symbols(res):
+    """names that denote more than one symbol of the form (declared arguments, free fields, constants)"""
+    names = [t["n"] for t in decl_leaves(res) + res["free"]["field_leaves"]] + list(res["free"]["consts"])
+    return sorted({n for n in names if names.count(n) > 1})
+
+
 # ------------------------------------------------------------------ python reproduction script
+def py_name(t):
+    return t["n"] if "s" not in t else "%s_%s" % (t["n"], t["s"])
+
+
 def py_tree(t):
     k = t["k"]
     if k == "num":
         return "Rational(%d, %d)" % (t["p"], t["q"])
     if k == "fun":
-        return t["n"]
+        return py_name(t)
     if k == "const":
         return "Constant('%s')" % t["n"]
     if k == "coord":
@@ -1041,42 +1168,53 @@ def py_parg(p):
 
 
 def python_replay(case, call=None):
-    used = set()
+    refs = {}            # python variable -> (name, space id)
+
+    def see(t, _parent=None):
+        if t["k"] == "fun":
+            refs[py_name(t)] = (t["n"], t["s"] if "s" in t else home_of(case, t["n"]))
     for it in case["integrals"]:
-        used |= tree_funs(it["e"])
-    used |= set(case["trials"] + case["tests"])
+        walk_refs(it["e"], see)
+    for n in case["trials"] + case["tests"]:
+        see(F(n))
     calls = [call] if call is not None else case["calls"]
     for c in calls:
         for p in c["pos"]:
             for t in (p["seq"] if "seq" in p else [p["val"]]):
-                used |= tree_funs(t)
+                walk_refs(t, see)
         for n, t in c["kw"]:
-            used |= tree_funs(t)
-    sc = sorted(n for n in used if not ISVEC[n])
-    ve = sorted(n for n in used if ISVEC[n])
+            walk_refs(t, see)
     L = ["# PYTHONPATH=/repo /venv/bin/python this_script.py",
          "from sympy import Rational", "from sympde.topology import *", "from sympde.calculus import *",
          "from sympde.topology.derivatives import dx1, dx2, dx3", "from sympde.core import Constant",
          "from sympde.expr import BilinearForm, LinearForm, integral",
-         "D = %s('Omega'); V = ScalarFunctionSpace('V', D); W = VectorFunctionSpace('W', D)" % ("Square" if case["dim"] == 2 else "Cube")]
-    for n in sc:
-        L.append("%s = element_of(V, name='%s')" % (n, n))
-    for n in ve:
-        L.append("%s = element_of(W, name='%s')" % (n, n))
+         "D = %s('Omega')" % ("Square" if case["dim"] == 2 else "Cube")]
+    for sid in sorted({s_ for _, s_ in refs.values()}):
+        vec, name, kind = SPACES[sid]
+        L.append("SP_%s = %sFunctionSpace('%s', D%s)" % (sid, "Vector" if vec else "Scalar", name, "" if kind is None else ", kind='%s'" % kind))
+    for var in sorted(refs):
+        n, sid = refs[var]
+        L.append("%s = element_of(SP_%s, name='%s')" % (var, sid, n))
     ints = []
     for it in case["integrals"]:
         reg = "D" if it["region"]["t"] == "dom" else "D.get_boundary(axis=%d, ext=%d)" % (it["region"]["axis"], it["region"]["ext"])
         ints.append("integral(%s, %s)" % (reg, py_tree(it["e"])))
     pk = lambda l: l[0] if len(l) == 1 else "(" + ", ".join(l) + ")"
+    extra = ", check_linearity=False" if case.get("same_names") else ""
     if case["kind"] == "bilinear":
-        L.append("a = BilinearForm((%s, %s), %s)" % (pk(case["trials"]), pk(case["tests"]), " + ".join(ints)))
+        L.append("a = BilinearForm((%s, %s), %s%s)" % (pk(case["trials"]), pk(case["tests"]), " + ".join(ints), extra))
         L.append("print('is_symmetric =', a.is_symmetric)")
     else:
-        L.append("a = LinearForm(%s, %s)" % (pk(case["tests"]), " + ".join(ints)))
+        L.append("a = LinearForm(%s, %s%s)" % (pk(case["tests"]), " + ".join(ints), extra))
     L.append("print(a.expr)")
+    L.append("show = lambda e: print(e, sorted((f.name, f.space.name, f.space.kind.name) for f in e.atoms(ScalarFunction, VectorFunction)))")
+    L.append("from sympde.topology.space import ScalarFunction, VectorFunction")
     for c in calls:
         args = [py_parg(p) for p in c["pos"]] + ["%s=%s" % (n, py_tree(t)) for n, t in c["kw"]]
-        L.append("print(a(%s))   # %s" % (", ".join(args), c.get("kind", "")))
+        if c.get("via") == "update_free":
+            L.append("show(a._update_free_variables(%s))   # %s" % (", ".join(args[len(c["pos"]):]), c.get("kind", "")))
+        else:
+            L.append("show(a(%s))   # %s" % (", ".join(args), c.get("kind", "")))
     return "\n".join(L)
 
 
@@ -1105,7 +1243,7 @@ def main(run, replay=None):
     import time
     rng = run.rng
     quick = run.tier == "quick"
-    nforms = 240 if quick else 2000
+    nforms = 200 if quick else 2000
     t0 = time.time()
     proof_ok = run.coq_props()
     timing = {"coq_build_s": round(time.time() - t0, 1)}
@@ -1145,6 +1283,8 @@ def main(run, replay=None):
         form = coq_form(c, r["form"])
         if c["kind"] == "bilinear":
             terms.append("bool_nat (is_symmetric %s)" % form); owners.append((ci, -1, "flag"))
+            if same_named_symbols(r):
+                terms.append("flag_ids %s" % form); owners.append((ci, -1, "flag_ids"))
         low0 = dict((reg, sx) for reg, sx in r["lowered"].get("body", [])) if "body" in r["lowered"] else None
         exch_low = None
         for call, out in zip(c["calls"], r["calls"]):
@@ -1153,10 +1293,25 @@ def main(run, replay=None):
             pos = coq_list([coq_parg(p) for p in out["pos"]])
             kw = coq_list(["(%s, %s)" % (coq_str(n), coq_expr(t)) for n, t in out["kw"]])
             cr = coq_result(out)
-            if cr is not None:
+            if call.get("via") == "update_free":
+                # (the positional values of these calls are the form's own arguments: with them [call_ids] is the
+                #  keyword update with identities)
+                if cr is not None:
+                    terms.append("chk_upd %s %s %s" % (form, kw, cr)); owners.append((ci, call["id"], "chk1"))
+                    if same_named_symbols(r):
+                        terms.append("chk_diag %s %s %s %s" % (form, pos, kw, cr)); owners.append((ci, call["id"], "diag"))
+                elif "err" in out:
+                    terms.append("chk_upd_err %s %s" % (form, kw)); owners.append((ci, call["id"], "chk_err"))
+                    if same_named_symbols(r):
+                        terms.append("chk_err_ids %s %s %s" % (form, pos, kw)); owners.append((ci, call["id"], "chk_err_ids"))
+            elif cr is not None:
                 terms.append("chk1 %s %s %s %s" % (form, pos, kw, cr)); owners.append((ci, call["id"], "chk1"))
+                if call["kind"].startswith("twin") or call["kind"] == "kw_twin" or same_named_symbols(r):
+                    terms.append("chk_diag %s %s %s %s" % (form, pos, kw, cr)); owners.append((ci, call["id"], "diag"))
             elif "err" in out:
                 terms.append("chk_err %s %s %s" % (form, pos, kw)); owners.append((ci, call["id"], "chk_err"))
+                if same_named_symbols(r):
+                    terms.append("chk_err_ids %s %s %s" % (form, pos, kw)); owners.append((ci, call["id"], "chk_err_ids"))
             if low0 is not None and "body" in out.get("lowered", {}) and "body" in out:
                 sub = tsub_data(c, r, out)
                 low1 = dict((reg, sx) for reg, sx in out["lowered"]["body"])
@@ -1209,7 +1364,13 @@ def main(run, replay=None):
              "forms_pointwise_symmetric": 0, "forms_not_symmetric": 0, "check_linearity_off": 0, "arity_python_refused": 0,
              "unknown_kw_refused": 0, "flag_raises": 0, "lowered_model_proved": 0,
              "wrong_count_refused": 0, "refusals_other_kind": 0,
-             "keyword_name_cancelled_at_construction": 0}
+             "keyword_name_cancelled_at_construction": 0, "keyword_names_a_same_named_field": 0,
+             "identity_oracle_ok": 0, "identity_clean_renamings": 0, "identity_objects_checked": 0,
+             "identity_objects_identical": 0, "same_name_values_replaced": 0, "kind_refusals_agree": 0,
+             "numeric_skipped_shape": 0, "direct_undecided": 0, "forms_with_same_named_symbols": 0,
+             "form_not_altered": 0, "base_domain_is_form_domain": 0, "functional_fields_ok": 0,
+             "diag_differs_from_identity_model": 0, "diag_equals_skip_equal_shortcut": 0,
+             "diag_differs_from_skip_equal_shortcut": 0, "flag_by_names_true_by_identities_false": 0}
     call_kinds, err_kinds, unproved_kinds, not_tied = {}, {}, {}, {}
     failing = []        # (ci, call id or -1, sig, message)
     unexplained = []    # model / impl disagreements with no oracle failure
@@ -1236,6 +1397,9 @@ def main(run, replay=None):
             elif sym.get("exchangeable") is not False:
                 ps = sym["pointwise_symmetric"]
                 stats["forms_pointwise_symmetric" if ps else "forms_not_symmetric"] += 1
+                mids = code.get((ci, -1, "flag_ids"), [None])[0]
+                if mflag == 1 and mids == 0:
+                    stats["flag_by_names_true_by_identities_false"] += 1
                 if sym["flag"]:
                     stats["flags_true"] += 1
                     if mflag == 1:
@@ -1243,8 +1407,14 @@ def main(run, replay=None):
                     if proofs and all(p == 0 for p in proofs):
                         stats["flag_true_proved_by_tequiv"] += 1
                     if not ps and sym.get("integral_changes") is not False:
-                        failing.append((ci, -1, {"kind": "symmetric-flag-wrong"},
-                                        "is_symmetric is True but exchanging trial and test functions changes the value: "
+                        twins = same_named_symbols(r)
+                        # known finding only when the flag is exactly what the model of the code (== alone) computes and
+                        # identities would have said False
+                        failing.append((ci, -1, {"kind": "same-name", "what": "symmetric-flag-by-names"} if (twins and mflag == 1 and mids == 0)
+                                        else {"kind": "symmetric-flag-wrong"},
+                                        "is_symmetric is True but exchanging trial and test functions changes the value (when the form has "
+                                        "two same-named functions of different spaces: a1 == a2 ignores the spaces, Props/C10.v "
+                                        "C10_symmetry_flag_refuted): "
                                         "integrand values %s vs %s, integral changes: %s" % (sym["values"][0], sym["values"][1], sym.get("integral_changes")), True))
                 else:
                     stats["flags_false"] += 1
@@ -1255,13 +1425,27 @@ def main(run, replay=None):
             else:
                 stats["flags_true" if sym.get("flag") else "flags_false"] += 1
         # ---- calls
+        if same_named_symbols(r):
+            stats["forms_with_same_named_symbols"] += 1
+        if r.get("base", {}).get("domain_is_form_domain"):
+            stats["base_domain_is_form_domain"] += 1
+        if r.get("base", {}).get("functional_fields_are_all_functions") is False:
+            failing.append((ci, None, {"kind": "functional-fields"}, "the fields of a Functional are not the functions of its expression", False))
+        elif r.get("base", {}).get("functional_fields_are_all_functions"):
+            stats["functional_fields_ok"] += 1
+        freenames = set(r["free"]["fields"]) | set(r["free"]["consts"])
         for call, out in zip(c["calls"], r["calls"]):
             kind = call["kind"]
-            if kind not in ("kw_unknown", "arity_python", "arity_zip") and \
-                    any(n not in r["free"]["fields"] + r["free"]["consts"] for n, _ in call["kw"]):
-                # sympy cancelled the only occurrences of a symbol when the form was built: the name is not free in the real form
-                kind = "kw_unknown"
-                stats["keyword_name_cancelled_at_construction"] += 1
+            if kind not in ("arity_python", "arity_zip") and call["kw"]:
+                # what is free is read off the real form (sympy may have cancelled the only occurrences of a symbol when the
+                # form was built; a coefficient may carry the name of a declared argument)
+                unknown = any(n not in freenames for n, _ in call["kw"])
+                if unknown and kind != "kw_unknown":
+                    kind = "kw_unknown"
+                    stats["keyword_name_cancelled_at_construction"] += 1
+                elif not unknown and kind == "kw_unknown":
+                    kind = "kw"
+                    stats["keyword_names_a_same_named_field"] += 1
             call_kinds[kind] = call_kinds.get(kind, 0) + 1
             stats["calls"] += 1
             cid = call["id"]
@@ -1271,13 +1455,31 @@ def main(run, replay=None):
             if "unsupported" in out:
                 failing.append((ci, cid, {"kind": "unsupported-node"}, "the serialiser does not know a node of the result: " + out["unsupported"], False))
                 continue
+            if out.get("form_altered"):
+                failing.append((ci, cid, {"kind": "form-altered-by-call"}, "calling the form changed the form itself (its integrals or its recorded domain)", True))
+                continue
             if "err" in out:
                 err_kinds[out["err"]] = err_kinds.get(out["err"], 0) + 1
                 m = code.get((ci, cid, "chk_err"), [None])[0]
                 want = {"arity_python": ("type", 1), "kw_unknown": ("value", 2), "arity_zip": ("value", 3)}.get(kind)
+                if want is None and out["err"] == "argtype" and out.get("direct_err_kind") == "argtype":
+                    # the calculus refuses an operator on a space of this kind, and refuses it as well when the integrand is
+                    # written directly with the supplied functions: the call really put them there
+                    stats["kind_refusals_agree"] += 1
+                    continue
                 if want is None:
-                    failing.append((ci, cid, {"kind": "call-raises", "call": kind},
-                                    "a legitimate call raised %s: %s" % (out["err"], out.get("msg", "")), True))
+                    twins = same_named_symbols(r)
+                    mi = code.get((ci, cid, "chk_err_ids"), [None])[0]
+                    if out["err"] == "value" and m == 2 and mi == 0 and any(n in twins for n, _ in call["kw"]):
+                        # refused exactly as the model of the code refuses it, accepted with identities
+                        sig = {"kind": "same-name", "what": "field-named-like-argument-not-free"}
+                        msg = ("a keyword that names a free field of the form was refused: the field carries the name of a declared "
+                               "argument (another space) and BasicForm.fields tells fields from arguments with == alone, which ignores "
+                               "the space (model: Props/C10.v C10_field_named_like_argument_refuted; repair proposal fix-same-name-spaces)")
+                    else:
+                        sig = {"kind": "call-raises", "call": kind, "err": out["err"]}
+                        msg = "a legitimate call raised %s: %s" % (out["err"], out.get("msg", ""))
+                    failing.append((ci, cid, sig, msg, True))
                     continue
                 stats[{"arity_python": "arity_python_refused", "kw_unknown": "unknown_kw_refused",
                        "arity_zip": "wrong_count_refused"}[kind]] += 1
@@ -1304,6 +1506,13 @@ def main(run, replay=None):
                                 "the number of supplied values differs from the number of declared arguments and the call "
                                 "silently returned a result (zip stops at the shorter list)", True))
                 continue
+            if out.get("direct_err_kind") == "argtype":
+                failing.append((ci, cid, {"kind": "kind-refusal-missing", "call": kind},
+                                "written directly with the supplied functions the integrand is refused by the calculus (space kind), "
+                                "but the call returned a result: the supplied functions are not where the arguments were", True))
+                continue
+            stats["form_not_altered"] += 1
+            diag = code.get((ci, cid, "diag"), [None])[0]
             c1 = code.get((ci, cid, "chk1"), [None])[0]
             c2 = code.get((ci, cid, "chk2"))
             c2s = code.get((ci, cid, "chk2seq"), c2)
@@ -1321,16 +1530,62 @@ def main(run, replay=None):
                     unproved_kinds[kind] = unproved_kinds.get(kind, 0) + 1
             orc = out["oracle"]
             bad = None
-            if "unsupported" in orc:
+            if diag is not None:
+                if c1 is not None and c1 & 1:
+                    stats["diag_equals_skip_equal_shortcut"] += (diag >> 1) & 1
+                else:
+                    stats["diag_differs_from_identity_model"] += 0 if diag & 1 else 1
+                    stats["diag_differs_from_skip_equal_shortcut"] += 0 if diag & 2 else 1
+            as_code_not_ids = diag is not None and (model_ok or bool(diag & 4)) and not diag & 9
+            idn = out.get("ident")
+            if idn is None or "unsupported" in idn:
+                failing.append((ci, cid, {"kind": "oracle-unsupported"}, "the identity oracle cannot walk the result: %s" % (idn,), False))
+                continue
+            if idn.get("bad"):
+                twins = same_named_symbols(r)
+                table = r.get("free_impl", {}).get("table", {})
+                if idn["bad"] == "survives" and not idn.get("key_is_declared") and idn.get("key_name") in twins and \
+                        any(n == idn.get("key_name") for n, _ in out["kw"]) and idn.get("key_leaf") is not None and \
+                        table.get(idn["key_name"]) is not None and jleaf(table[idn["key_name"]]) != jleaf(idn["key_leaf"]):
+                    # the survivor carries the keyword's name and is NOT the one symbol registered under that name
+                    sig = {"kind": "same-name", "what": "keyword-binds-one-of-several"}
+                    msg = ("a keyword replaced only one of the free symbols that carry its name: get_free_variables keeps one symbol per "
+                           "name, the last of a set iteration - WHICH one survives depends on the hash seed (fixed to 0 here) "
+                           "(model: Props/C10.v C10_keyword_binds_one_of_several_refuted; repair proposal fix-same-name-spaces): ")
+                else:
+                    sig = {"kind": {"survives": "declared-argument-survives", "foreign": "foreign-or-missing-leaves",
+                                    "moved": "value-not-where-the-argument-was"}[idn["bad"]]}
+                    msg = {"survives": "after the call a declared argument (or a keyword target) is still in the result although another "
+                                       "value was supplied for it (identity = class, name and .space): ",
+                           "foreign": "an object that is neither in the form nor in a supplied value appears: ",
+                           "moved": "the supplied values do not sit exactly where the declared arguments were: "}[idn["bad"]]
+                bad = (sig, msg + idn.get("detail", ""))
+            else:
+                stats["identity_oracle_ok"] += 1
+                stats["identity_clean_renamings"] += bool(idn.get("clean_renaming"))
+                stats["identity_objects_checked"] += idn.get("objects_checked", 0)
+                stats["identity_objects_identical"] += idn.get("objects_identical", 0)
+                if kind.startswith("twin") or kind == "kw_twin":
+                    stats["same_name_values_replaced"] += 1
+            if bad is None and "unsupported" in orc:
                 failing.append((ci, cid, {"kind": "oracle-unsupported"}, "the oracle cannot evaluate: " + orc["unsupported"], False))
                 continue
-            if orc.get("ok") is False:
+            if orc.get("skipped") == "shape":
+                stats["numeric_skipped_shape"] += 1
+            if bad is None and orc.get("ok") is False:
                 hz = hazard_of(c, r, out)
                 if hz and orc.get("sequential_predicts_got"):
                     # the behaviour of the code before repair 8f04492 (known_findings: fixed)
                     sig = {"kind": "keyword-value-resubstituted", "by": hz}
                     msg = ("a keyword value was substituted again by the %s that the same call replaces (sequential instead of "
                            "simultaneous substitution)" % ("following keywords" if hz == "keywords" else "arguments"))
+                elif orc.get("one_symbol_per_name_predicts_got") and any(n in same_named_symbols(r) for n, _ in out["kw"]):
+                    # exactly what "one symbol per keyword name" predicts (the symbol the implementation's name table holds)
+                    sig = {"kind": "same-name", "what": "keyword-binds-one-of-several"}
+                    msg = ("a keyword replaced only one of the free symbols that carry its name (a field and a constant, or two "
+                           "fields of different spaces): get_free_variables keeps one symbol per name, the last of a set iteration - "
+                           "which one depends on the hash seed (fixed to 0 here) (model: Props/C10.v "
+                           "C10_keyword_binds_one_of_several_refuted; repair proposal fix-same-name-spaces)")
                 elif arg_value_mentions_kw_key(r, out):
                     sig = {"kind": "argument-value-resubstituted", "by": "keywords"}
                     msg = ("a free field / constant that enters through a positional VALUE was replaced by a keyword of the same "
@@ -1339,7 +1594,7 @@ def main(run, replay=None):
                     sig = {"kind": "wrong-substitution", "call": kind}
                     msg = "the called form is not the original evaluated at the substituted arguments"
                 bad = (sig, msg + ": expected %s got %s at %s" % (orc.get("expected"), orc.get("got"), orc.get("points")))
-            elif orc.get("ok"):
+            elif bad is None and orc.get("ok"):
                 stats["oracle_numeric_ok"] += 1
             if bad is None and kind == "own":
                 if not out["eq_self"] or body_canon(out["body"]) != body_canon(r["form"]["body"]):
@@ -1351,6 +1606,8 @@ def main(run, replay=None):
                     stats["oracle_exchange_direct_same"] += 1
                 elif out.get("direct_numeric"):
                     stats["oracle_exchange_direct_numeric"] += 1
+                elif "direct_undecided" in out:
+                    stats["direct_undecided"] += 1       # shapes the polynomial evaluator does not cover (the other class)
                 else:
                     bad = ({"kind": "exchange-differs-from-direct-construction", "call": kind},
                            "the called form differs from the form built directly with the arguments in the exchanged roles")
@@ -1448,6 +1705,18 @@ def main(run, replay=None):
         for call, out in zip(c["calls"], r["calls"]):
             if "body" in out and nfun >= 2 and nops >= 1 and call["kind"] not in ("own",):
                 distinct.add(canon_hash([body, out.get("pos"), out.get("kw")]))
+    samefeat, tags = {}, {}
+    for c, r in zip(cases, results):
+        if r is None or "crash" in r or r["form"].get("zero"):
+            continue
+        for x in c.get("same_names", []) + (["home-not-V-W"] if c.get("home") else []) + (["product-space-arguments"] if c.get("product_decl") else []):
+            samefeat[x] = samefeat.get(x, 0) + 1
+        for o in r["calls"]:
+            for _, t in o.get("body", []):
+                for x in ct_leaves(t):
+                    x = json.loads(x)
+                    if x["l"] == "fun":
+                        tags[x.get("s", "")] = tags.get(x.get("s", ""), 0) + 1
     cov = {
         "evaluations": stats["calls"],
         "distinct_nontrivial": len(distinct),
@@ -1459,6 +1728,7 @@ def main(run, replay=None):
         "decisions": stats, "call_kinds": call_kinds, "refusal_kinds": err_kinds,
         "form_shapes": shapes, "dimension": dims, "integrand_size_histogram": sizes, "integrals_per_form": regions,
         "node_kinds": ops, "timing": timing, "lowered_unproved_by_call_kind": unproved_kinds,
+        "same_name_features_of_forms": samefeat, "space_tags_seen": tags,
         "calls_decided_by_the_oracle_only": not_tied,
         "samples": [dict((k, v) for k, v in cases[i].items() if k != "functions") for i in (0, len(cases) - 1)],
         "exhaustive": False,
@@ -1470,7 +1740,16 @@ def main(run, replay=None):
     }
     assumptions = [
         "Theorems are about coq/Model/CallM.v; the tie to sympde/expr/expr.py and basic.py is this run's correspondence.",
-        "Function symbols are identified by (class, name) as sympy's == does; same name in different spaces belongs to C12.",
+        "A function symbol is (class, name, space tag = space name : space kind): what a dictionary / xreplace lookup (hash, then "
+        "==) distinguishes on one domain; the model assumes that Python hashes of different tags do not collide. The lowered-"
+        "integrand comparison (second comparison) names functions by name only and is not used when one name denotes two symbols "
+        "of the form.",
+        "The model follows the UNCHANGED code at the three sites that decide with == alone (fields: `i not in args`; one symbol per "
+        "keyword name, the last of the iteration order of the Python set of atoms, which the runner reads off the interpreter and "
+        "hands to the model as f_atoms; is_symmetric: a1 == a2). The full statements are refuted in Props/C10.v and proved under the "
+        "guard names_identify; the oracle reads the property at full strength, so these inputs are reported and matched by the "
+        "known findings C10-same-name-* only when the implementation does exactly what the model of the code does and names-as-"
+        "identities ([call_ids] / [is_symmetric_ids], proposal /tmp/bld/C10/fix-same-name-spaces.patch) would not.",
         "Structural comparison is modulo the order of the arguments of Add, Mul, Dot, Inner; when sympy / sympde re-evaluate the "
         "rebuilt tree (sums as arguments), the comparison is made on the lowered integrands by tequiv instead.",
         "The symmetry-flag theorem is about structural equality; the real == additionally accepts integrands whose difference "
@@ -1487,18 +1766,30 @@ def shrink(run, case, sig, cid):
     def fails(res):
         if res is None or "crash" in res or res["form"].get("zero"):
             return False
-        if kind == "symmetric-flag-wrong":
+        if kind == "symmetric-flag-wrong" or (kind == "same-name" and sig.get("what") == "symmetric-flag-by-names"):
             s = res.get("sym", {})
             return bool(s.get("flag")) and s.get("pointwise_symmetric") is False and s.get("integral_changes") is not False
         for o in res["calls"]:
             if kind in ("keyword-value-resubstituted", "wrong-substitution", "argument-value-resubstituted"):
                 if o.get("oracle", {}).get("ok") is False:
                     return True
+            elif kind in ("declared-argument-survives", "value-not-where-the-argument-was", "same-name"):
+                if o.get("ident", {}).get("bad"):
+                    return True
+                if kind == "same-name" and o.get("oracle", {}).get("ok") is False:
+                    return True
+                if kind == "same-name" and o.get("err") == "value" and o.get("kw") and \
+                        all(n in res["free"]["fields"] + res["free"]["consts"] for n, _ in o["kw"]):
+                    return True
+            elif kind == "kind-refusal-missing":
+                if "body" in o and o.get("direct_err_kind") == "argtype":
+                    return True
             elif kind in ("arity-silently-accepted", "unknown-keyword-accepted"):
                 if "body" in o:
                     return True
             elif kind == "call-raises":
-                if "err" in o:
+                if "err" in o and o["err"] == sig.get("err", o["err"]) and \
+                        all(n in res["free"]["fields"] + res["free"]["consts"] for n, _ in o.get("kw", [])):
                     return True
             elif kind == "own-arguments-change-the-form":
                 if "body" in o and (not o.get("eq_self") or body_canon(o["body"]) != body_canon(res["form"]["body"])):
